@@ -72,6 +72,30 @@ USES = {'url': ['urlparts'], 'urlparts': ['fullpath'], 'fullpath': ['script_name
         'body': ['content_length']}
 
 
+BY_DESIGN = ({('headers', k) for k in ('CONTENT_LENGTH', 'CONTENT_TYPE')} |
+             {(a, 'HTTP_TRANSFER_ENCODING') for a in ('params', 'json', 'POST', 'forms', 'files', '_body')} |
+             {('_body', 'CONTENT_LENGTH'), ('_body', 'CONTENT_TYPE')})
+
+_LIVE = None
+
+
+def live_table():
+    """the behavioural table of the tree under test (harness/tables/envcache.py), once per process"""
+    global _LIVE
+    if _LIVE is None:
+        from harness.tables import envcache as t
+        try:
+            _LIVE = t.collect()
+        except Exception:
+            _LIVE = dict(uncovered=[], keys=[])
+    return _LIVE
+
+
+def new_uncovered():
+    """pairs the live code leaves uncovered that are neither by design nor pinned: regressions to look for"""
+    return [(a, k) for (a, k) in live_table().get('uncovered', []) if (a, k) not in BY_DESIGN and (a, k) not in PINNED_STALE]
+
+
 def pinned_from_lean():
     """the literal list of Props/EnvCache.lean, to keep the two copies from drifting apart"""
     import os
@@ -578,7 +602,8 @@ def gen_ops(rng, check, cfg, env, stream, n_ops, safe_bias):
             for _try in range(6):
                 key = rng.choice(fkeys) if rng.random() < .65 else rng.choice(
                     ['QUERY_STRING', 'CONTENT_LENGTH', 'CONTENT_TYPE', 'HTTP_COOKIE', 'PATH_INFO', 'SCRIPT_NAME', 'HTTP_ACCEPT',
-                     'HTTP_HOST', 'HTTP_TRANSFER_ENCODING'] + HTTPX + PLAINK)
+                     'HTTP_HOST', 'HTTP_TRANSFER_ENCODING'] + HTTPX + PLAINK +
+                    [k for k in live_table().get('keys', []) if k != 'wsgi.input'])
                 if key == 'wsgi.input' or rng.random() >= safe_bias or not tr.stale_hit(reqs[i], key):
                     break
             if key == 'wsgi.input':
@@ -775,6 +800,7 @@ def search_stream(rng, n, check, pid, stats, seeds=()):
         if isinstance(s, dict) and s.get('kind') == 'envcache':
             cases.append(unpack(s))
     cases += directed_cases()
+    cases += guided_cases(rng)
     for _ in range(n):
         cases.append(gen_case(rng, check, safe_bias=.9))
     dom = DOMAIN[check]
@@ -789,6 +815,25 @@ def search_stream(rng, n, check, pid, stats, seeds=()):
         if bad:
             findings.append(Finding(bad[0], bad[1], dict(probe='envcache', **pack(*c))))
     return evals, findings
+
+
+def guided_cases(rng):
+    """table-guided search: for every uncovered pair of the live table that is not pinned, the read / assign / read
+    sequences (on the request and on a copy) over several base environs and values"""
+    out = []
+    for attr, key in new_uncovered():
+        a = 'body' if attr == '_body' else attr
+        for _ in range(6):
+            cfg, env, stream = gen_initial(rng, 'C04')
+            cfg = dict(cfg, memfile=102400, maxbody=None)
+            vals = [value_for(rng, key), value_for(rng, key), '5', 'v']
+            for v in vals:
+                out.append((cfg, env, stream, [('r', 0, a), ('s', 0, key, v), ('r', 0, a)]))
+            out.append((cfg, env, stream, [('r', 0, a), ('d', 0, key), ('r', 0, a)]))
+            out.append((cfg, env, stream, [('r', 0, a), ('c', 0), ('s', 1, key, vals[0]), ('r', 1, a), ('r', 0, a)]))
+            env2 = {k: v for k, v in env.items() if k not in ('CONTENT_LENGTH', 'CONTENT_TYPE', 'QUERY_STRING', 'HTTP_COOKIE')}
+            out.append((cfg, env2, stream, [('r', 0, a), ('s', 0, key, vals[2]), ('r', 0, a)]))
+    return out
 
 
 def directed_cases():
